@@ -48,7 +48,7 @@ def spec(tier, seed):
     inst.append(Instance("c11a_error_from", "parser", "t_error_from::<6>()", unwind=10, mem_gb=4, timeout_s=900,
                          stubs=[("alloc::string::String::from_utf8_lossy", "crate::verif_util::lossy_stub")],
                          sub="C11a ParseError construction", params=dict(buffer_bytes=6)))
-    pre = PREFIXED if not q else rotate(PREFIXED, seed, 5)
+    pre = PREFIXED if not q else rotate([x for x in PREFIXED if x[0] != "diffgit"], seed, 4)    # `diff --git` + 8 bytes: 520 s / 7 GB, thorough tier
     for nm, pfx, git, tail in pre:
         n = len(pfx) + tail
         inst.append(Instance("c11a_kw_%s" % nm, "parser", "t_prefixed::<%d>(%s, %s)" % (n, bytes_lit(pfx), str(git).lower()), unwind=n + 4,
@@ -70,7 +70,8 @@ def spec(tier, seed):
             combos.append(tuple(f))
     combos = sorted(set(combos))
     if q:
-        combos = [(1, 2**64 - 1, 1, 1), (1, 1, 1, 2**64 - 1), (2**63, 1, 1, 1), (1, 1, 2**63, 1), (1, 10**12, 1, 1), (0, 0, 1, 1), (1, 1, 0, 0), (5, 0, 6, 2)]
+        # the extreme-value instances take 260-330 s / 7 GB each: three of them in the quick tier, the rest in the thorough one
+        combos = [(1, 2**64 - 1, 1, 1), (2**63, 1, 1, 1), (1, 10**12, 1, 1), (0, 0, 1, 1), (1, 1, 0, 0), (5, 0, 6, 2)]
     for (a_, b_, c_, d_) in combos:
         hdr = "@@ -%d,%d +%d,%d @@\n" % (a_, b_, c_, d_)
         n = len(hdr) + 4
